@@ -7,7 +7,8 @@ THEOREMS = ['rd_no_panic', 'rd_total', 'ends_with_error', 'wait_only_when_closin
             'oversize_is_error', 'reply_complete_or_error', 'connect_ends_with_error',
             'old_gsv_panics', 'old_oversize_empty_success']
 MODULES = ['LLRP.Model.ReadSide', 'LLRP.Model.ReadStages', 'LLRP.Proofs.ReadSide', 'LLRP.Oracle.C04', 'LLRP.Oracle.C10']
-RULE = ('two valid session transcripts (1.0.1: greeting, two request/reply exchanges, keep-alive, tag report; 1.1: greeting, '
+RULE = ('[device-service leg: 1-4 real LLRPDevices fed UTC- and uptime-stamped reports and events, truncated reports and garbage by scripted readers (the C13 traffic); judged: no goroutine of the service panics] [trickle: a reply whose payload arrives after its caller gave up, then an ordinary exchange] '
+        'two valid session transcripts (1.0.1: greeting, two request/reply exchanges, keep-alive, tag report; 1.1: greeting, '
         'GetSupportedVersion and SetProtocolVersion exchanges, keep-alive), each frame of each transcript mutated: truncation at header '
         'bytes and payload bytes (thorough: every byte), declared length 0..9, real+-1, limit, limit+1, limit+2, 2^31, 2^32-1 (with and '
         'without the rest of the session), real payloads of limit and limit+1.. bytes, 14 type codes, flipped payload bytes, random tails, '
@@ -91,9 +92,29 @@ def judge(res, reqs, obs):
     return exp
 
 
+def driver_leg(res, tier, seed):
+    """the device service's own handlers on inbound traffic (device.go is an anchor of this property): real LLRPDevices fed
+    well-formed but unusual and damaged reports / events by scripted readers (the C13 traffic generator: UTC- and
+    uptime-stamped reports and events, truncated reports, garbage payloads); here only survival is judged"""
+    binp, out = core.build_harness('driver')
+    if not binp:
+        raise RuntimeError('driver harness build failed:\n' + out[-3000:])
+    path, rc, out = core.run_harness(binp, 'TestVerifC13', tier, seed, pkg='driver', timeout=900, outname='cases_c10_driver.txt')
+    res.evaluations += 1
+    res.count('driver-leg')
+    crash = core.crash_summary(out) if rc != 0 else None
+    if crash:
+        head, frames, trace = crash
+        res.violation('driver:crash:' + (frames[0] if frames else head), 'a goroutine of the device service panicked on inbound traffic (%s in %s): the process died'
+                      % (head, ' <- '.join(frames) or '?'), 'history', True, case=['TestVerifC13 seed=%s tier=%s' % (seed, tier)], expected=['no panic'], observed=[trace])
+    elif rc != 0:
+        raise RuntimeError('driver harness run failed rc=%d:\n%s' % (rc, out[-3000:]))
+
+
 def correspond(res, tier, seed):
     reqs, obs = _run(tier, seed)
     exp = judge(res, reqs, obs)
+    driver_leg(res, tier, seed)
     n = len(reqs)
     res.samples = [dict(request=reqs[i][:300], oracle=exp[i], observed=obs[i]) for i in (0, n // 5, n // 3, n // 2, 2 * n // 3, n - 1) if 0 <= i < n]
     res.extra['scenarios'] = n
